@@ -254,7 +254,7 @@ def run_driver(cmd, work, scripts=None, out=None, seed=1, jobs=12, tier="quick",
     with open(rep) as f:
         r = json.load(f)
     if r.get("errors"):
-        raise HarnessError("driver %s reported harness errors (%d), first: %s" % (cmd, len(r["errors"]), r["errors"][:3]))
+        raise HarnessError("driver %s reported harness errors (%d), first:\n%s" % (cmd, len(r["errors"]), "\n---\n".join(e[-6000:] for e in r["errors"][:2])))
     return r
 
 
